@@ -1,7 +1,7 @@
 (* Properties_C12.v — linear solvers, inverses and factorisations. *)
 From Coq Require Import Floats.
 From mathcomp Require Import all_ssreflect all_algebra.
-From LS Require Import NumOps RcfOps F64Ops Kernels Algebra GJ Det DetLink Lse LseSpec.
+From LS Require Import NumOps RcfOps F64Ops Kernels Algebra GJ Det DetLink Lse LseSpec GjExec.
 Set Implicit Arguments. Unset Strict Implicit. Unset Printing Implicit Defensive.
 Import Order.TTheory GRing.Theory Num.Theory.
 Local Open Scope ring_scope.
@@ -22,6 +22,13 @@ Proof. exact: mdetE. Qed.
 Theorem C12_executable_determinant (R : rcfType) n (M : seq (seq R)) : Det.wf n.+1 n.+1 M ->
   Algebra.mdet (ops := RcfOps R) M = \det (Det.mx_of n.+1 n.+1 M).
 Proof. exact: exec_mdetE. Qed.
+(* the EXECUTABLE Gauss-Jordan inversion (pivot search, row exchange, elimination, normalisation: the list program that
+   is run against MatrixInversion), over any real closed field, every size: whenever no pivot vanishes the returned
+   matrix times the input is the identity *)
+Theorem C12_executable_inverse (R : rcfType) n (M : seq (seq R)) : RcfOps.wf n n M ->
+  (forall i, (i < n)%N -> pivot_of n (state n M i) i != 0) ->
+  RcfOps.mx_of n n (gj_inverse M) *m RcfOps.mx_of n n M = 1%:M.
+Proof. exact: gj_inverse_mx. Qed.
 (* SolveLSE, the EXECUTABLE model (pre-pass, elimination with partial pivoting, back substitution into the
    caller's vector), over any real closed field and every size n:
    - the pre-pass and the elimination keep the solution set of [A | b], whatever the matrix;
@@ -57,6 +64,7 @@ Proof. by vm_compute. Qed.
 
 Print Assumptions C12_gauss_jordan_sound.
 Print Assumptions C12_det_laplace.
+Print Assumptions C12_executable_inverse.
 Print Assumptions C12_solve_lse_keeps_the_solution_set.
 Print Assumptions C12_solve_lse_solves.
 Print Assumptions C12_solve_lse_ignores_previous_contents.
